@@ -401,6 +401,19 @@ def classify_call(P, fn, s):
             if (dfn is not None and dfn.get('callee') == 'strchr' and same(dfn['args'][0], src) and same(a[1], src)
                     and sex is not None and nonnull and ex[0] - ex[1] >= sex[0]):
                 return '4 memcpy(dst, src, strchr(src,c)-src), extent(dst)>=extent(src)', 'dst=%d src=%d' % (ex[0], sex[0])
+        # idiom 4b: memcpy(dst, src_array, n) with n = strcspn(src_array, ..) / strlen(src_array) / strnlen(..): the length
+        # measured inside a terminated array of extent E is at most E - 1
+        a2y = a[2]
+        if is_var(a2y):
+            sd_ = fn.single_def(a2y['name'])
+            if sd_ and isinstance(sd_[1], dict):
+                a2y = sd_[1]
+        while isinstance(a2y, dict) and a2y.get('k') == 'cast':
+            a2y = a2y.get('e')
+        if ex is not None and isinstance(a2y, dict) and a2y.get('k') == 'callref' and a2y.get('callee') in ('strcspn', 'strlen', 'strnlen', 'strspn') and a2y.get('args') and same(a2y['args'][0], a[1]):
+            sex = extent_of(fn, a[1])
+            if sex is not None and ex[0] - ex[1] >= sex[0]:
+                return '4b memcpy(dst, src, %s(src..)), extent(dst)>=extent(src)' % a2y['callee'], 'dst=%d src=%d' % (ex[0], sex[0])
         return None, 'unrecognised %s(%s, %s, %s)' % (name, sx(a[0]), sx(a[1]), sx(a[2]))
     if name in ('snprintf', 'vsnprintf') and len(a) >= 3:
         d, n = fn.expand_local(a[0], s), fn.expand_local(a[1], s)
@@ -561,6 +574,17 @@ def classify_store(P, fn, s, cache):
             nonnull = any(is_var(r[0], p) and r[1] == '!=' and const_of(r[2]) == 0 for r in fn.guards(s.bid))
             if sex is not None and defs and nonnull and sex[0] <= ext:
                 return '4 dst[strchr(src,c)-src] = 0, extent(dst)>=extent(src)', 'dst=%d src=%d' % (ext, sex[0])
+        # idiom 4b companion: dst[n] = 0 with n measured inside a terminated array no larger than dst
+        idy = s.ev['lhs'].get('index') if isinstance(s.ev.get('lhs'), dict) else None
+        if is_var(idy):
+            sd_ = fn.single_def(idy['name'])
+            v_ = sd_[1] if sd_ and isinstance(sd_[1], dict) else None
+            while isinstance(v_, dict) and v_.get('k') == 'cast':
+                v_ = v_.get('e')
+            if isinstance(v_, dict) and v_.get('k') == 'callref' and v_.get('callee') in ('strcspn', 'strlen', 'strnlen', 'strspn') and v_.get('args'):
+                sex = extent_of(fn, v_['args'][0])
+                if sex is not None and sex[0] <= ext:
+                    return '4b dst[%s(src..)] = 0, extent(dst)>=extent(src)' % v_['callee'], 'dst=%d src=%d' % (ext, sex[0])
         return None, 'index %s of %s not bounded by its extent %d (bound found: %s)' % (sx(idx), sx(base), ext, m)
     # pointer base: a (dst, len) parameter pair
     if is_var(base) and base.get('sc') == 'param':
